@@ -27,7 +27,7 @@ var profiles = map[string]Profile{
 	"native": {Name: "native", Put: 20, Update: 16, Delete: 8, Get: 3, Query: 16, Scan: 10, Pages: 0, BatchWrite: 0, BatchGet: 0, Describe: 0, Failure: 0, Mgmt: 2, Native: 25,
 		CondPct: 40, BadPct: 3, Tables: 2, MaxIndexes: 1, OpsMin: 10, OpsMax: 30, ExactNums: true, FinalObserve: true},
 	"values": {Name: "values", Put: 40, Update: 6, Delete: 4, Get: 30, Query: 6, Scan: 10, Pages: 0, BatchWrite: 4, BatchGet: 10, Describe: 0, Failure: 0, Mgmt: 0,
-		CondPct: 0, BadPct: 0, Tables: 2, MaxIndexes: 1, OpsMin: 8, OpsMax: 22, ExactNums: false, DotKeys: true, RichValues: true, FinalObserve: true},
+		CondPct: 0, BadPct: 0, Tables: 2, MaxIndexes: 1, OpsMin: 8, OpsMax: 22, ExactNums: false, DotKeys: true, NumericKeys: true, RichValues: true, FinalObserve: true},
 	"numbers": {Name: "numbers", Put: 30, Update: 22, Delete: 6, Get: 10, Query: 14, Scan: 8, Pages: 6, BatchWrite: 0, BatchGet: 0, Describe: 0, Failure: 0, Mgmt: 0,
 		CondPct: 35, BadPct: 0, Tables: 1, MaxIndexes: 1, OpsMin: 8, OpsMax: 24, ExactNums: false, NumericKeys: true, FewHash: true, FinalObserve: true, DelBoundary: 10},
 }
